@@ -118,6 +118,11 @@ fn run_prop<P: Prop>(p: &P, tier: Tier) -> ExitCode {
             continue; // one replay per violated clause
         }
         reported.push(f.clause);
+        if f.clause.starts_with("harness.") {
+            eprintln!("harness error at run {}: {} {}", idx, f.clause, f.detail);
+            harness_error = true;
+            continue;
+        }
         let mut rng = Rng::new(run_seed(seed, p.id(), *idx));
         let case = p.gen(&mut rng, tier, *idx);
         let (min_case, min_fail, steps) = minimise(p, &case, f, 5000);
